@@ -1,5 +1,6 @@
 /- the codec models instantiated with the facts regenerated from /repo (Gen/CodecFacts.lean) -/
 import IpcHub.Model.H264Sps
+import IpcHub.Model.Asc
 import IpcHub.Gen.CodecFacts
 namespace IpcHub.H264
 
@@ -15,3 +16,19 @@ def genCfg : Cfg :=
     fpsWide := IpcHub.Gen.h264FpsWide }
 
 end IpcHub.H264
+
+namespace IpcHub.Asc
+
+def genCfg : Cfg :=
+  { sampleRates := IpcHub.Gen.aacSampleRates
+    channels := IpcHub.Gen.aacAudioChannels
+    aotNull := IpcHub.Gen.aotNull
+    aotAacLc := IpcHub.Gen.aotAacLc
+    aotSbr := IpcHub.Gen.aotSbr
+    aotErBsac := IpcHub.Gen.aotErBsac
+    aotPs := IpcHub.Gen.aotPs
+    aotEscape := IpcHub.Gen.aotEscape
+    aotAls := IpcHub.Gen.aotAls
+    psGuardFFmpeg := IpcHub.Gen.aacPsGuardFFmpeg }
+
+end IpcHub.Asc
